@@ -246,6 +246,15 @@ def run_eslen(case):
                 ids = {s.id_ for s in (inv.sensors() if name == "read_runtime_data" else inv.settings())}
                 if set(data) != ids:
                     violations.append(viol(f"C11:keys:{name}:ES", f"block length {ln}: keys differ {sorted(set(data) ^ ids)[:5]}"))
+                if name == "read_settings_data":
+                    # a setting whose own bytes are not (all) inside the announced block cannot be interpreted: None
+                    for st in inv.settings():
+                        if type(st).__name__ in R.WIDTH and st.offset < 256 and st.offset + st.size_ > ln \
+                                and data.get(st.id_) is not None:
+                            violations.append(viol(f"C11:ES-settings:beyond-block:{type(st).__name__}",
+                                                   f"settings block of announced length {ln}: {st.id_} (bytes {st.offset}.."
+                                                   f"{st.offset + st.size_ - 1}) is reported as {data[st.id_]!r}, not None"))
+                            break
             except ge.InverterError as e:
                 violations.append(viol(f"C11:inverter-error:{name}:ES", f"block length {ln}: {e!r}"))
             except Exception as e:  # noqa
